@@ -75,6 +75,12 @@ pub mod iter {
 
     pub struct Par<S, P> { pub(crate) src: Vec<S>, pub(crate) ordered: bool, pub(crate) pipe: P }
 
+    impl<'a, S, P: Pipe<S, Out = &'a T>, T: 'a + Clone> Par<S, P> {
+        pub fn cloned(self) -> Par<S, Map<P, fn(&'a T) -> T>> { self.map(<T as Clone>::clone as fn(&'a T) -> T) }
+    }
+    impl<'a, S, P: Pipe<S, Out = &'a T>, T: 'a + Copy> Par<S, P> {
+        pub fn copied(self) -> Par<S, Map<P, fn(&'a T) -> T>> { fn cp<T: Copy>(x: &T) -> T { *x } self.map(cp::<T> as fn(&'a T) -> T) }
+    }
     impl<S, P: Pipe<S>> Par<S, P> {
         pub fn map<U, F: Fn(P::Out) -> U + Sync + Send>(self, f: F) -> Par<S, Map<P, F>> { Par { src: self.src, ordered: self.ordered, pipe: Map(self.pipe, f) } }
         pub fn filter<F: Fn(&P::Out) -> bool + Sync + Send>(self, f: F) -> Par<S, Filter<P, F>> { Par { src: self.src, ordered: self.ordered, pipe: Filter(self.pipe, f) } }
@@ -131,6 +137,31 @@ pub mod iter {
             parts.pop().unwrap()
         }
         pub fn sum<T: std::iter::Sum<P::Out>>(self) -> T { self.gather().into_iter().sum() }
+        // ---- adaptors implemented by materialising the pipeline so far (eager evaluation is one of the executions rayon allows)
+        fn regather(self) -> Par<P::Out, Id> { let ordered = self.ordered; Par { src: self.gather(), ordered, pipe: Id } }
+        pub fn enumerate(self) -> Par<(usize, P::Out), Id> { let p = self.regather(); Par { src: p.src.into_iter().enumerate().collect(), ordered: p.ordered, pipe: Id } }
+        pub fn zip<Z: IntoParallelIterator>(self, other: Z) -> Par<(P::Out, Z::Item), Id> { let a = self.regather(); let b = other.into_par_iter().regather(); Par { src: a.src.into_iter().zip(b.src).collect(), ordered: true, pipe: Id } }
+        pub fn chain<Z: IntoParallelIterator<Item = P::Out>>(self, other: Z) -> Par<P::Out, Id> { let mut a = self.regather(); let b = other.into_par_iter().regather(); a.src.extend(b.src); a }
+        pub fn take(self, n: usize) -> Par<P::Out, Id> { let mut a = self.regather(); a.src.truncate(n); a }
+        pub fn skip(self, n: usize) -> Par<P::Out, Id> { let a = self.regather(); Par { src: a.src.into_iter().skip(n).collect(), ordered: a.ordered, pipe: Id } }
+        pub fn rev(self) -> Par<P::Out, Id> { let mut a = self.regather(); a.src.reverse(); a }
+        pub fn inspect<F: Fn(&P::Out) + Sync + Send>(self, f: F) -> Par<S, Map<P, impl Fn(P::Out) -> P::Out>> { self.map(move |x| { f(&x); x }) }
+        pub fn with_min_len(self, _n: usize) -> Self { self }
+        pub fn with_max_len(self, _n: usize) -> Self { self }
+        pub fn min(self) -> Option<P::Out> where P::Out: Ord { self.gather().into_iter().min() }
+        pub fn max(self) -> Option<P::Out> where P::Out: Ord { self.gather().into_iter().max() }
+        pub fn min_by_key<K: Ord, F: Fn(&P::Out) -> K + Sync + Send>(self, f: F) -> Option<P::Out> { self.gather().into_iter().min_by_key(|x| f(x)) }
+        pub fn max_by_key<K: Ord, F: Fn(&P::Out) -> K + Sync + Send>(self, f: F) -> Option<P::Out> { self.gather().into_iter().max_by_key(|x| f(x)) }
+        pub fn min_by<F: Fn(&P::Out, &P::Out) -> std::cmp::Ordering + Sync + Send>(self, f: F) -> Option<P::Out> { self.gather().into_iter().min_by(|a, b| f(a, b)) }
+        pub fn max_by<F: Fn(&P::Out, &P::Out) -> std::cmp::Ordering + Sync + Send>(self, f: F) -> Option<P::Out> { self.gather().into_iter().max_by(|a, b| f(a, b)) }
+        /// find_any may return ANY match: the first match of the first-completed job that has one
+        pub fn find_any<F: Fn(&P::Out) -> bool + Sync + Send>(self, f: F) -> Option<P::Out> { let (res, order) = self.run_jobs(|items, pipe| { let mut hit = None; for s in items { pipe.feed(s, &mut |x| if hit.is_none() && f(&x) { hit = Some(x) }); } hit }); let mut slots: Vec<Option<Option<P::Out>>> = res.into_iter().map(Some).collect(); for jb in order { if let Some(Some(x)) = slots[jb].take() { return Some(x); } } None }
+        pub fn find_first<F: Fn(&P::Out) -> bool + Sync + Send>(self, f: F) -> Option<P::Out> { self.gather().into_iter().find(|x| f(x)) }
+        pub fn position_any<F: Fn(P::Out) -> bool + Sync + Send>(self, f: F) -> Option<usize> { self.gather().into_iter().position(f) }
+        pub fn try_for_each<E, F: Fn(P::Out) -> Result<(), E> + Sync + Send>(self, f: F) -> Result<(), E> { for x in self.gather() { f(x)?; } Ok(()) }
+        pub fn unzip<A, B, CA: Default + Extend<A>, CB: Default + Extend<B>>(self) -> (CA, CB) where P: Pipe<S, Out = (A, B)> { let mut a = CA::default(); let mut b = CB::default(); for (x, y) in self.gather() { a.extend(Some(x)); b.extend(Some(y)); } (a, b) }
+        pub fn partition<CA: Default + Extend<P::Out>, CB: Default + Extend<P::Out>, F: Fn(&P::Out) -> bool + Sync + Send>(self, f: F) -> (CA, CB) { let mut a = CA::default(); let mut b = CB::default(); for x in self.gather() { if f(&x) { a.extend(Some(x)) } else { b.extend(Some(x)) } } (a, b) }
+        pub fn collect_into_vec(self, target: &mut Vec<P::Out>) { target.clear(); target.extend(self.gather()); }
         pub fn any<F: Fn(P::Out) -> bool + Sync + Send>(self, f: F) -> bool { self.gather().into_iter().any(f) }
         pub fn all<F: Fn(P::Out) -> bool + Sync + Send>(self, f: F) -> bool { self.gather().into_iter().all(f) }
     }
@@ -150,7 +181,65 @@ pub mod iter {
     impl<'a, T: 'a> IntoParallelRefIterator<'a> for std::collections::BTreeSet<T> { type Item = &'a T; fn par_iter(&'a self) -> Par<&'a T, Id> { Par { src: self.iter().collect(), ordered: true, pipe: Id } } }
     impl<'a, K: 'a, V: 'a, H: 'a> IntoParallelRefIterator<'a> for std::collections::HashMap<K, V, H> { type Item = (&'a K, &'a V); fn par_iter(&'a self) -> Par<(&'a K, &'a V), Id> { Par { src: self.iter().collect(), ordered: false, pipe: Id } } }
 
-    pub trait ParallelSlice<T> { fn par_chunks(&self, n: usize) -> Par<&[T], Id>; }
-    impl<T> ParallelSlice<T> for [T] { fn par_chunks(&self, n: usize) -> Par<&[T], Id> { Par { src: self.chunks(n).collect(), ordered: true, pipe: Id } } }
+    pub trait ParallelSlice<T> { fn par_chunks(&self, n: usize) -> Par<&[T], Id>; fn par_chunks_exact(&self, n: usize) -> Par<&[T], Id>; fn par_windows(&self, n: usize) -> Par<&[T], Id>; }
+    impl<T> ParallelSlice<T> for [T] {
+        fn par_chunks(&self, n: usize) -> Par<&[T], Id> { Par { src: self.chunks(n).collect(), ordered: true, pipe: Id } }
+        fn par_chunks_exact(&self, n: usize) -> Par<&[T], Id> { Par { src: self.chunks_exact(n).collect(), ordered: true, pipe: Id } }
+        fn par_windows(&self, n: usize) -> Par<&[T], Id> { Par { src: self.windows(n).collect(), ordered: true, pipe: Id } }
+    }
+    pub trait ParallelSliceMut<T> {
+        fn par_sort(&mut self) where T: Ord; fn par_sort_unstable(&mut self) where T: Ord;
+        fn par_sort_by<F: Fn(&T, &T) -> std::cmp::Ordering + Sync>(&mut self, f: F); fn par_sort_unstable_by<F: Fn(&T, &T) -> std::cmp::Ordering + Sync>(&mut self, f: F);
+        fn par_sort_by_key<K: Ord, F: Fn(&T) -> K + Sync>(&mut self, f: F); fn par_sort_unstable_by_key<K: Ord, F: Fn(&T) -> K + Sync>(&mut self, f: F);
+        fn par_chunks_mut(&mut self, n: usize) -> Par<&mut [T], Id>; fn par_iter_mut(&mut self) -> Par<&mut T, Id>;
+    }
+    impl<T> ParallelSliceMut<T> for [T] {
+        fn par_sort(&mut self) where T: Ord { self.sort() } fn par_sort_unstable(&mut self) where T: Ord { self.sort_unstable() }
+        fn par_sort_by<F: Fn(&T, &T) -> std::cmp::Ordering + Sync>(&mut self, f: F) { self.sort_by(|a, b| f(a, b)) } fn par_sort_unstable_by<F: Fn(&T, &T) -> std::cmp::Ordering + Sync>(&mut self, f: F) { self.sort_unstable_by(|a, b| f(a, b)) }
+        fn par_sort_by_key<K: Ord, F: Fn(&T) -> K + Sync>(&mut self, f: F) { self.sort_by_key(|a| f(a)) } fn par_sort_unstable_by_key<K: Ord, F: Fn(&T) -> K + Sync>(&mut self, f: F) { self.sort_unstable_by_key(|a| f(a)) }
+        fn par_chunks_mut(&mut self, n: usize) -> Par<&mut [T], Id> { Par { src: self.chunks_mut(n).collect(), ordered: true, pipe: Id } }
+        fn par_iter_mut(&mut self) -> Par<&mut T, Id> { Par { src: self.iter_mut().collect(), ordered: true, pipe: Id } }
+    }
+    pub trait ParallelBridge: Iterator + Sized { fn par_bridge(self) -> Par<Self::Item, Id> { Par { src: self.collect(), ordered: false, pipe: Id } } }
+    impl<I: Iterator + Sized> ParallelBridge for I {}
+    pub trait ParallelExtend<T> { fn par_extend<I: IntoParallelIterator<Item = T>>(&mut self, it: I); }
+    impl<T> ParallelExtend<T> for Vec<T> { fn par_extend<I: IntoParallelIterator<Item = T>>(&mut self, it: I) { self.extend(it.into_par_iter().collect::<Vec<T>>()) } }
+    impl<T: Eq + std::hash::Hash, H: std::hash::BuildHasher> ParallelExtend<T> for std::collections::HashSet<T, H> { fn par_extend<I: IntoParallelIterator<Item = T>>(&mut self, it: I) { self.extend(it.into_par_iter().collect::<Vec<T>>()) } }
+    impl<T: Ord> ParallelExtend<T> for std::collections::BTreeSet<T> { fn par_extend<I: IntoParallelIterator<Item = T>>(&mut self, it: I) { self.extend(it.into_par_iter().collect::<Vec<T>>()) } }
+    impl<K: Eq + std::hash::Hash, V, H: std::hash::BuildHasher> ParallelExtend<(K, V)> for std::collections::HashMap<K, V, H> { fn par_extend<I: IntoParallelIterator<Item = (K, V)>>(&mut self, it: I) { self.extend(it.into_par_iter().collect::<Vec<(K, V)>>()) } }
+    impl<S, P: Pipe<S>> IntoParallelIterator for Par<S, P> { type Item = P::Out; fn into_par_iter(self) -> Par<P::Out, Id> { let ordered = self.ordered; Par { src: self.gather(), ordered, pipe: Id } } }
+    impl<K, V, H> IntoParallelIterator for std::collections::HashMap<K, V, H> { type Item = (K, V); fn into_par_iter(self) -> Par<(K, V), Id> { Par { src: self.into_iter().collect(), ordered: false, pipe: Id } } }
+    impl<'a, T> IntoParallelIterator for &'a mut Vec<T> { type Item = &'a mut T; fn into_par_iter(self) -> Par<&'a mut T, Id> { Par { src: self.iter_mut().collect(), ordered: true, pipe: Id } } }
 }
-pub mod prelude { pub use crate::iter::{IntoParallelIterator, IntoParallelRefIterator, ParallelSlice}; }
+pub mod prelude { pub use crate::iter::{IntoParallelIterator, IntoParallelRefIterator, ParallelBridge, ParallelExtend, ParallelSlice, ParallelSliceMut}; }
+pub mod slice { pub use crate::iter::{ParallelSlice, ParallelSliceMut}; }
+
+/// `rayon::join`: both closures run on the calling thread, in PRNG-chosen order
+pub fn join<A, B, RA, RB>(a: A, b: B) -> (RA, RB) where A: FnOnce() -> RA + Send, B: FnOnce() -> RB + Send, RA: Send, RB: Send {
+    if ACTIVE.with(|x| x.get()) && draw(2) == 1 { let rb = b(); let ra = a(); (ra, rb) } else { let ra = a(); let rb = b(); (ra, rb) }
+}
+/// `rayon::scope`: spawned tasks run when spawned (one of the schedules rayon allows)
+pub struct Scope<'scope> { _m: std::marker::PhantomData<&'scope ()> }
+impl<'scope> Scope<'scope> { pub fn spawn<F: FnOnce(&Scope<'scope>) + Send + 'scope>(&self, f: F) { f(self) } }
+pub fn scope<'scope, F, R>(f: F) -> R where F: FnOnce(&Scope<'scope>) -> R + Send, R: Send { f(&Scope { _m: std::marker::PhantomData }) }
+pub fn spawn<F: FnOnce() + Send + 'static>(f: F) { f() }
+pub fn current_thread_index() -> Option<usize> { Some(0) }
+
+#[derive(Debug)] pub struct ThreadPoolBuildError;
+impl std::fmt::Display for ThreadPoolBuildError { fn fmt(&self, f: &mut std::fmt::Formatter<'_>) -> std::fmt::Result { write!(f, "thread pool build error") } }
+impl std::error::Error for ThreadPoolBuildError {}
+#[derive(Default)] pub struct ThreadPoolBuilder { n: usize }
+pub struct ThreadPool { n: usize }
+impl ThreadPoolBuilder {
+    pub fn new() -> Self { ThreadPoolBuilder { n: 0 } }
+    pub fn num_threads(mut self, n: usize) -> Self { self.n = n; self }
+    pub fn thread_name<F: FnMut(usize) -> String + 'static>(self, _f: F) -> Self { self }
+    pub fn stack_size(self, _n: usize) -> Self { self }
+    pub fn build(self) -> Result<ThreadPool, ThreadPoolBuildError> { Ok(ThreadPool { n: if self.n == 0 { current_num_threads() } else { self.n } }) }
+    pub fn build_global(self) -> Result<(), ThreadPoolBuildError> { if self.n > 0 && !ACTIVE.with(|a| a.get()) { THREADS.with(|t| t.set(self.n)); } Ok(()) }
+}
+impl ThreadPool {
+    pub fn install<R: Send, F: FnOnce() -> R + Send>(&self, f: F) -> R { let old = THREADS.with(|t| t.replace(self.n.max(1))); let r = f(); THREADS.with(|t| t.set(old)); r }
+    pub fn current_num_threads(&self) -> usize { self.n }
+    pub fn join<A, B, RA, RB>(&self, a: A, b: B) -> (RA, RB) where A: FnOnce() -> RA + Send, B: FnOnce() -> RB + Send, RA: Send, RB: Send { join(a, b) }
+}
